@@ -123,6 +123,7 @@ class Generator_ha_sm_hr:
 
         for x in range(n2):
             hospital_num = x + 1
+            string_pref_list = ''
             if not len(pref_lists_hospitals) == 0:
                 string_pref_list = create_string_pref(
                 pref_lists_hospitals[x], hosp_ties[x])
